@@ -57,6 +57,11 @@ DataCases == {
   Case("tuple", <<>>, TupE(<<T(1, 5), T(2, 6), T(3, 7)>>), WTup(<<WInt, WInt, WInt>>), <<1, 2, 3>>),
   Case("struct", <<>>, StructE(<< <<"b", T(1, 5)>>, <<"a", T(2, 6)>>, <<"c", T(3, 7)>> >>),
        WStruct(<< <<"a", WInt>>, <<"b", WInt>>, <<"c", WInt>> >>), <<1, 2, 3>>),
+  \* a field named twice: both initialisers run, in source order, the later value is kept
+  Case("struct-repeated-field", <<>>, StructE(<< <<"a", T(1, 5)>>, <<"b", T(2, 6)>>, <<"a", T(3, 7)>> >>),
+       WStruct(<< <<"a", WInt>>, <<"b", WInt>> >>), <<1, 2, 3>>),
+  Case("struct-repeated-field-adjacent", <<>>, StructE(<< <<"a", T(1, 5)>>, <<"a", T(2, 6)>>, <<"b", T(3, 7)>> >>),
+       WStruct(<< <<"a", WInt>>, <<"b", WInt>> >>), <<1, 2, 3>>),
   Case("repeat", <<>>, RepE(T(1, 5), T(2, 2)), WArr(WInt), <<1, 2>>),
   Case("index", <<>>, At(Tick(1, WArr(WInt), Arr123), T(2, 1)), WInt, <<1, 2>>),
   Case("index-lit", <<>>, At(Arr123, T(1, 1)), WInt, <<1>>),
